@@ -32,8 +32,7 @@ def main(tier, replay=None):
     with concurrent.futures.ThreadPoolExecutor(max_workers=4) as ex:
         f_lib = ex.submit(lambda: vlib.build_harness_wb(vlib.build_lib(wd), ["h_map.c"], os.path.join(wd, "h_map"),
                                                         ("Tree.c",), chk.notes))
-        f_exh = ex.submit(vlib.tlc, "TableImpl", exh_cfg, wd, 8 if quick else 12, "6g" if quick else "16g",
-                          ("-coverage", "1"))
+        f_exh = ex.submit(vlib.tlc, "TableImpl", exh_cfg, wd, 8 if quick else 12, "6g" if quick else "16g")
         f_edge = ex.submit(vlib.tlc, "TableImpl", edge_cfg, wd, 4, "4g")
         harness = f_lib.result()
         r_exh = f_exh.result()
@@ -51,13 +50,10 @@ def main(tier, replay=None):
             # drives the same histories, so only report drift here.
             print("MODEL-DRIFT module=TableImpl cfg=%s: %s" % (name, r.invariant), flush=True)
             chk.notes.append("TableImpl %s: %s violated on the model" % (name, r.invariant))
-    cov = r_exh.coverage()
-    for act in ("Set", "Rem", "Resize", "CopyCont"):
-        if cov and cov.get(act, 0) == 0:
-            raise vlib.ToolError("vacuous model run: action %s never taken" % act)
 
     # ---- 2. replay of the model's transition graph on the real Table ----
     edges = list(r_edge.lines("EDGE"))
+    vlib.require_ops(edges, ("set", "rem", "resize", "copy"), "TableImpl")
     g = edgecover.Graph(edges)
     paths, covered, total = g.cover([1, [-1]], mode="edges", maxlen=60, rng=rng,
                                     budget=30000 if quick else None)
